@@ -48,6 +48,27 @@ def life_scenario(rng, sid, big=False):
     L += ["m destroy", "m reset"]
     return "\n".join(L) + "\n"
 
+def special_scenarios(rng):
+    """directed life-cycle shapes the random generator reaches only by luck"""
+    out = []
+    # shutdown while the workers are still between pthread_create and state = RUNNING (held at hook proc.enter)
+    for n in (1, 3):
+        out.append(("shutdown-while-starting:%d" % n,
+                    "m watchdog 8\nm pool %d 0\nm delay proc.enter -1 -999 4000 -1\nm start 0\nm shutdown\nm nodelay\nm shutdown_wait\nm destroy\nm watchdog 30\nm reset\n" % n))
+    # worker 0 runs on the caller's own thread (tp_thread_attach_first); the pool is shut down from inside,
+    # afterwards the SAME caller waits and destroys: it is an outside thread again
+    for n in (1, 2, 4):
+        L = ["m watchdog 10", "m pool %d 0" % n, "m start 1", "m waitrun"]
+        if n > 1:
+            L += ["w1 sleep 3000", "w1 send 0 0 %d" % (7000 + n), "w1 shutdown", "m spawn w1"]
+        else:
+            L += ["e1 sleep 5000", "e1 shutdown", "m spawn e1"]
+        L += ["m attach_first"]
+        if n == 1: L += ["m join e1"]
+        L += ["m shutdown_wait", "m destroy", "m watchdog 30", "m reset"]
+        out.append(("attach-first:%d" % n, "\n".join(L) + "\n"))
+    return out
+
 def fault_scenarios(nthr):
     """every k-th acquisition of every kind fails during tp_create / tp_threads_create"""
     out = []
@@ -134,6 +155,15 @@ def run(ctx):
                 ctx.fail("trace:TpLife:rejected-at:%s" % ev.get("e"), json.dumps(info, indent=1)[:4000], {"scenario": text, "seed": ctx.seed + sid})
             else:
                 ctx.log("rejection not reproduced on re-run (not reported): %s" % str(ev)[:300])
+    # ---- 3b. directed shapes: shutdown racing thread start-up, borrowed first thread
+    for name, text in special_scenarios(rng):
+        rc, out, evs = tp.run_scenario(exe, text, d, ctx.seed, "c11_sp", timeout=120)
+        if rc not in (0, 3, 4): raise common.Infra("tp_drv rc=%s\n%s" % (rc, out[-1500:]))
+        ok, info = check_trace(ctx, evs, d, "c11_sp", name, {"scenario": text})
+        ntr += 1; total_ev += info["events"]
+        if not ok:
+            ev = (info.get("context") or [{}])[-1]
+            ctx.fail("trace:TpLife:%s:rejected-at:%s" % (name.split(":")[0], ev.get("e")), json.dumps(info, indent=1)[:4000], {"scenario": text})
     # ---- 4. shutdown against a full queue (termination)
     text = full_pipe_scenario()
     rc, out, evs = tp.run_scenario(exe, text, d, ctx.seed, "c11_full", timeout=60)
